@@ -205,6 +205,8 @@ def run(ctx):
         runs = [("rust", csim, ["openlist", "--list", "{list}"], None, None),
                 ("c", cdrv, ["openlist", "{list}"], {"ASAN_OPTIONS": "halt_on_error=1:detect_leaks=0", "UBSAN_OPTIONS": "halt_on_error=1"}, None)]
         if not q:
+            asan = ctx.build_harness_asan("clientsim", ["clientsim"])["clientsim"]
+            runs.append(("rust-asan", asan, ["openlist", "--list", "{list}"], {"ASAN_OPTIONS": "halt_on_error=1:detect_leaks=0:abort_on_error=0"}, None))
             plain = client.build_cdriver(ctx, sanitize=False)
             vg = ["valgrind", "-q", "--error-exitcode=99", "--leak-check=no"]
             runs.append(("rust-valgrind", csim, ["openlist", "--list", "{list}"], None, vg))
@@ -226,6 +228,9 @@ def run(ctx):
                 cl, rd = [x.strip() for x in answers["rust"][idx].split("||")]
                 per_api["ClockBoundClient"] = cl
                 per_api["ShmReader"] = rd
+            if "rust-asan" in answers:
+                cl, rd = [x.strip() for x in answers["rust-asan"][idx].split("||")]
+                per_api["ClockBoundClient(asan)"] = cl
             if "rust-valgrind" in answers:
                 cl, rd = [x.strip() for x in answers["rust-valgrind"][idx].split("||")]
                 per_api["ClockBoundClient(valgrind)"] = cl
@@ -278,7 +283,7 @@ def run(ctx):
         "evaluations": evaluations,
         "distinct_nontrivial": len(distinct),
         "rule": "corpus: every truncation length 0..80 of a valid segment (exhaustive), every header field at edge values, magic bytes flipped one at a time, the three readings of the documented magic, two-defect files, valid headers with short/random bodies, random bytes of length 0..256, path kinds (missing, directory, symlink, dangling symlink, /dev/null, missing directory); "
-                "each file opened through ClockBoundClient, ShmReader and clockbound_open (C, ASan+UBSan; thorough: also valgrind) and compared with the decision table of the statement; each file also opened 100 times in one process under a descriptor limit of 64, after which a valid segment must still open (failed opens leave nothing behind); then daemon start-up + first publication over each file on tmpfs and on a disk-backed directory, a new client reading (A) while the writer lives and (B) after the writer is gone, the file fsync'ed and its page cache dropped; "
+                "each file opened through ClockBoundClient, ShmReader and clockbound_open (C, ASan+UBSan; thorough: also the Rust side under rustc's AddressSanitizer and both under valgrind) and compared with the decision table of the statement; each file also opened 100 times in one process under a descriptor limit of 64, after which a valid segment must still open (failed opens leave nothing behind); then daemon start-up + first publication over each file on tmpfs and on a disk-backed directory, a new client reading (A) while the writer lives and (B) after the writer is gone, the file fsync'ed and its page cache dropped; "
                 "distinct_nontrivial = distinct corpus files (all non-trivial: each has an expected outcome)",
         "samples": samples,
         "open_outcome_matrix": matrix,
